@@ -4,6 +4,7 @@ SPECIFICATION Spec
 CONSTANTS Grid = 3
           MaxBlocks = 2
           CaseBlocks = 3
+          WithMatchers = FALSE
 INVARIANT C15_SelectionSatisfiesProperty
 INVARIANT FunctionalFormAgrees
 INVARIANT StackBounded
